@@ -397,6 +397,12 @@ class Evaluator:
             rest = uses[1:]
             if any(gens_ids[0] in e.loops or e.idx < m.idx for e in rest):
                 continue
+            MUT = ("append", "extend", "insert", "add", "update", "pop", "remove", "clear", "sort", "reverse", "setdefault",
+                   "popitem", "discard", "__setitem__", "__delitem__")
+            if any((e.kind == "call" and e.term[1][0] == "attr" and e.term[1][1] == al and e.term[1][2] in MUT)
+                   or (e.kind in ("store", "delete") and any(x[0] == "sub" and x[1] == al for x in walk(e.term[1] if e.kind == "store" else e.term)))
+                   for e in rest):
+                continue  # mutated again later: not a comprehension
             # split the path condition of the mutation into per-loop filters
             conds: Dict[str, list] = {l: [] for l in gens_ids}
             cur = None
@@ -412,8 +418,14 @@ class Evaluator:
                 continue
             if any(any(x[0] == "phi" for x in walk(self.loops[l].iter)) for l in gens_ids):
                 continue
+            if any(any(x == al for x in walk(self.loops[l].iter)) for l in gens_ids):
+                continue
             comp = ("comp", kind, elt, tuple((l, self.loops[l].iter, tuple(conds[l])) for l in gens_ids))
             mp = {al: comp}
+            for li in self.loops.values():
+                if li.id not in gens_ids:
+                    li.iter = subst(li.iter, mp)
+                    li.conds = tuple(subst(c, mp) for c in li.conds)
             for e in rest:
                 e.term = subst(e.term, mp)
                 e.live = subst(e.live, mp)
